@@ -191,6 +191,103 @@ fn main() {
                 st.points, st.market_points, st.files, st.offsets, st.cont_ops, st.status_seen, st.trading_off_points, st.samples);
         }
         "env-random" => env_random(&m),
+        "determinism-child" => {
+            use bourse_verif_harness::simcheck::*;
+            let c = cfg(num(&m, "cfg", 0), num(&m, "seed", 1));
+            println!("{}", run_cfg(&c, num(&m, "mode", 0)));
+        }
+        "determinism" => {
+            use bourse_verif_harness::simcheck::*;
+            let base: u64 = num(&m, "seed", 1);
+            let count: u64 = num(&m, "count", 40);
+            let exe = std::env::current_exe().unwrap();
+            let mut fails: Vec<String> = Vec::new();
+            let mut digests = std::collections::HashMap::new();
+            let (mut same_seed_pairs, mut distinct_seed_pairs, mut distinct_digest_pairs) = (0u64, 0u64, 0u64);
+            let mut samples = Vec::new();
+            for i in 0..count {
+                let c = cfg(i, base);
+                let d0 = run_cfg(&c, 0);
+                let d0b = run_cfg(&c, 0);
+                let d1 = run_cfg(&c, 1);
+                let d2 = run_cfg(&c, 2);
+                let child = |mode: u8| -> String {
+                    let o = std::process::Command::new(&exe).args(["determinism-child", "--cfg", &i.to_string(), "--seed", &base.to_string(), "--mode", &mode.to_string()]).output().unwrap();
+                    String::from_utf8_lossy(&o.stdout).trim().to_string()
+                };
+                let (dc0, dc1) = (child(0), child(1));
+                same_seed_pairs += 5;
+                let desc = format!("config {} (seed {}, {} steps, step size {}, tick {}, {} set, shape {})", i, c.seed, c.steps, c.step_size, c.tick, if c.market { "multi-asset" } else { "single-asset" }, c.shape);
+                if samples.len() < 3 { samples.push(format!("{} -> digest {}", desc, d0)); }
+                if d0 != d0b { fails.push(format!("two runs in one process differ: {}", desc)); }
+                if d0 != d1 { fails.push(format!("progress-bar branch differs from the silent branch: {}", desc)); }
+                if d0 != d2 { fails.push(format!("runner differs from the hand-written loop over Xoroshiro128StarStar::seed_from_u64(seed): {}", desc)); }
+                if dc0 != d0.to_string() { fails.push(format!("a separate OS process gives a different run ({} vs {}): {}", dc0, d0, desc)); }
+                if dc1 != d0.to_string() { fails.push(format!("a separate OS process with the progress bar gives a different run: {}", desc)); }
+                // a different seed on the same configuration
+                let c2 = Cfg { seed: c.seed ^ 0x5555, ..cfg(i, base) };
+                let e0 = run_cfg(&c2, 0);
+                distinct_seed_pairs += 1;
+                if e0 != d0 { distinct_digest_pairs += 1; }
+                digests.insert(i, d0);
+            }
+            for f in &fails { println!("DETFAIL {}", f); }
+            println!("DETSTATS {{\"configurations\":{},\"same_seed_comparisons\":{},\"different_seed_pairs\":{},\"different_seed_pairs_with_different_output\":{},\"samples\":{:?}}}",
+                count, same_seed_pairs, distinct_seed_pairs, distinct_digest_pairs, samples);
+        }
+        "momentum-mirror" => {
+            let (fails, stats) = bourse_verif_harness::simcheck::momentum_mirror(num(&m, "seed", 1), num(&m, "count", 200));
+            for f in &fails { println!("MIRRORFAIL {}", f); }
+            println!("MIRRORSTATS {}", stats);
+        }
+        "macros" => {
+            let (fails, compared) = bourse_verif_harness::simcheck::macro_checks(num(&m, "seed", 1), num(&m, "rounds", 5));
+            for f in &fails { println!("MACROFAIL {}", f); }
+            println!("MACROSTATS {{\"shapes\":12,\"calls_compared\":{}}}", compared);
+        }
+        "agents-random" => {
+            use bourse_verif_harness::agentdrive::*;
+            use bourse_verif_harness::envdrive::EStats;
+            let seed: u64 = num(&m, "seed", 1);
+            let count: u64 = num(&m, "count", 50);
+            let shard: u64 = num(&m, "shard", 0);
+            let nshards: u64 = num(&m, "nshards", 1);
+            let only: i64 = num(&m, "only", -1);
+            let steps: usize = num(&m, "steps", 12);
+            let kinds: Vec<u8> = m.get("kinds").map(|s| s.split(',').filter_map(|x| x.parse().ok()).collect()).unwrap_or(vec![0, 1, 2]);
+            let paths: u32 = num(&m, "paths", 0);
+            let out = std::io::stdout();
+            let mut w = BufWriter::with_capacity(1 << 20, out.lock());
+            let mut st = EStats::new();
+            for i in 0..count {
+                if i % nshards != shard { continue; }
+                if only >= 0 && i as i64 != only { continue; }
+                let mut g = Sm(seed.wrapping_mul(0x9E3779B97F4A7C15) ^ (i + 1).wrapping_mul(0xC2B2AE3D27D4EB4F) ^ 0xA6);
+                let market = g.chance(1, 3);
+                let nsteps = 1 + g.below(steps as u64) as usize;
+                if paths == 1 {
+                    // imposed mid-price paths: rising, falling, mixed, flat
+                    let base = 100 + g.below(100) as i64;
+                    let mut path = vec![base];
+                    let shape = g.below(4);
+                    for s in 1..nsteps + 1 {
+                        let d = match shape { 0 => 2, 1 => -2, 2 => if g.chance(1, 2) { 3 } else { -3 }, _ => if s % 3 == 0 { 4 } else { 0 } };
+                        let last = *path.last().unwrap();
+                        path.push((last + d).max(10));
+                    }
+                    agent_script(&mut w, &mut st, i, &mut g, market, nsteps, &kinds, Some(&path));
+                } else {
+                    agent_script(&mut w, &mut st, i, &mut g, market, nsteps, &kinds, None);
+                }
+            }
+            w.flush().unwrap();
+            let path = m.get("stats").cloned().unwrap_or_default();
+            if !path.is_empty() {
+                let samples: Vec<String> = st.samples.iter().map(|s| format!("{:?}", s)).collect();
+                std::fs::write(&path, format!("{{\"scripts\":{},\"ops\":{},\"steps\":{},\"panics\":{},\"batch_size_histogram\":{:?},\"overflow_batches\":0,\"nontrivial\":{},\"distinct_nontrivial\":{},\"env_op_kinds\":{:?},\"samples\":[{}],\"op_kinds\":[0,0,0,0,0,0,0,0,0,0,0,0,0],\"final_status\":[0,0,0,0,0],\"trades\":0,\"price_errors\":0}}",
+                    st.scripts, st.ops, st.steps, st.panics, st.batch_hist, st.nontrivial, st.nontrivial, st.kinds, samples.join(","))).unwrap();
+            }
+        }
         "shuffle-stats" => {
             let (fails, summary) = bourse_verif_harness::shufstats::run(num(&m, "small", 200000), num(&m, "large", 50000), num(&m, "seed", 1));
             for f in &fails { println!("STATFAIL {}", f); }
